@@ -255,6 +255,11 @@ impl<SVC: Service> CloudServer<SVC> {
 
     /// Perform cleanup, deleting unnecessary data.
     async fn cleanup(&mut self) -> Result<()> {
+        // Read "latest" before listing the versions: every version that was accepted before
+        // "latest" had this value has already been uploaded, so the listing below contains the
+        // whole chain leading to it, even if other replicas add versions in the meantime.
+        let latest = self.get_latest().await?;
+
         // Construct a vector containing all (child, parent, creation) tuples
         let mut versions = {
             let mut versions = Vec::new();
@@ -284,7 +289,6 @@ impl<SVC: Service> CloudServer<SVC> {
         // at "latest".
         let mut rev_chain = HashMap::new();
         let mut iterations = versions.len() + 1; // For cycle detection.
-        let latest = self.get_latest().await?;
         if let Some(mut c) = latest {
             while let Some(p) = parent_of(c) {
                 rev_chain.insert(c, p);
@@ -321,11 +325,14 @@ impl<SVC: Service> CloudServer<SVC> {
             })
             .collect();
 
-        // Now, any pair not present in that chain can be deleted. However, another replica
-        // may be in the state where it has uploaded a version but not changed "latest" yet,
-        // so any pair with parent equal to latest is allowed to stay.
+        // Now, any pair not present in that chain whose parent is an ancestor of "latest" can
+        // be deleted: that parent already has its child in the chain, so the pair can never
+        // join it. Any other pair must stay: another replica may have uploaded a version but not
+        // changed "latest" yet (parent equal to latest), or may have added further versions
+        // since "latest" was read above (parent unknown to this chain).
+        let ancestors: HashSet<Uuid> = rev_chain.values().copied().collect();
         for (c, p, _) in versions {
-            if rev_chain.get(&c) != Some(&p) && Some(p) != latest {
+            if rev_chain.get(&c) != Some(&p) && ancestors.contains(&p) {
                 self.service.del(&Self::version_name(&p, &c)).await?;
             }
         }
